@@ -233,4 +233,408 @@ def advanceIterG (pj : PJ) (i dst : Iter) : Res (Iter × Iter × UInt8) := do
       else if iEnd > d.lim then .error .generic
       else .ok (i2, { d with lim := iEnd }, typ)
 
+/-! ## the hand model's loops against the loops as Go runs them -/
+
+/-- what the model says of the state Go leaves: on a dead exit (`live = false`) with a non-zero payload register the
+    model has kept the payload of the *initial* iterator -/
+def fixDead (i a : Iter) (live : Bool) : Iter := if live ∨ a.cur = 0 then a else { a with cur := i.cur }
+
+theorem advanceLoop_eq_G (pj : PJ) (i : Iter) : ∀ (n : Nat) (j : Iter), j.lim - j.off ≤ n → j.lim = i.lim →
+    j.addNext = i.addNext → (j.cur = i.cur ∨ j.cur ≠ 0) →
+    Iter.advanceLoop pj i j.off = (advanceLoopG pj j).bind (fun r => .ok (fixDead i r.1 r.2, r.2)) := by
+  have hend : ∀ j : Iter, j.off ≥ j.lim → j.lim = i.lim → j.addNext = i.addNext → (j.cur = i.cur ∨ j.cur ≠ 0) →
+      Iter.advanceLoop pj i j.off = (advanceLoopG pj j).bind (fun r => .ok (fixDead i r.1 r.2, r.2)) := by
+    intro j h' hl ha hc
+    rw [Iter.advanceLoop, advanceLoopG]
+    have h : j.off ≥ i.lim := by omega
+    simp only [h, h', dif_pos, Res.bind, fixDead]
+    by_cases h0 : j.cur = 0
+    · have : i.cur = 0 := by
+        rcases hc with hc | hc
+        · rw [← hc, h0]
+        · exact absurd h0 hc
+      simp [h0, this, hl]
+    · simp [h0, hl]
+  intro n
+  induction n with
+  | zero =>
+    intro j hn hl ha hc
+    exact hend j (by omega) hl ha hc
+  | succ n ih =>
+    intro j hn hl ha hc
+    by_cases h' : j.off ≥ j.lim
+    · exact hend j h' hl ha hc
+    · rw [Iter.advanceLoop, advanceLoopG]
+      have h : ¬ j.off ≥ i.lim := by omega
+      simp only [h, h', dif_neg, not_false_eq_true, Iter.rdT, rd]
+      cases hr : pj.tape[j.off]? with
+      | none => simp [Res.bind]
+      | some v =>
+        simp only [Res.bind_ok]
+        by_cases hn' : tagOf v = tagNop
+        · by_cases hz : payloadOf v = 0
+          · simp [hn', hz, Res.bind, fixDead, Iter.moveToEnd, hl, ha]
+          · have hz' := payload_toNat_ne v hz
+            simp only [hn', hz, beq_self_eq_true, if_true, beq_iff_eq, if_false]
+            have := ih { j with off := j.off + 1 + ((payloadOf v).toNat - 1), cur := payloadOf v, t := tagNop }
+              (by simp only; omega) hl ha (Or.inr hz)
+            simpa using this
+        · have hb : (tagOf v == tagNop) = false := by simp [hn']
+          simp [hb, Res.bind, fixDead, hl, ha]
+
+
+theorem advanceIntoLoop_eq_G (pj : PJ) (i : Iter) : ∀ (n : Nat) (j : Iter), j.lim - j.off ≤ n → j.lim = i.lim →
+    j.addNext = i.addNext → (j.cur = i.cur ∨ j.cur ≠ 0) →
+    Iter.advanceIntoLoop pj i j.off = (advanceIntoLoopG pj j).bind (fun r => .ok (fixDead i r.1 r.2, r.2)) := by
+  have hend : ∀ j : Iter, j.off ≥ j.lim → j.lim = i.lim → j.addNext = i.addNext → (j.cur = i.cur ∨ j.cur ≠ 0) →
+      Iter.advanceIntoLoop pj i j.off = (advanceIntoLoopG pj j).bind (fun r => .ok (fixDead i r.1 r.2, r.2)) := by
+    intro j h' hl ha hc
+    rw [Iter.advanceIntoLoop, advanceIntoLoopG]
+    have h : j.off ≥ i.lim := by omega
+    simp only [h, h', dif_pos, Res.bind, fixDead]
+    by_cases h0 : j.cur = 0
+    · have : i.cur = 0 := by
+        rcases hc with hc | hc
+        · rw [← hc, h0]
+        · exact absurd h0 hc
+      simp [h0, this, hl]
+    · simp [h0, hl]
+  intro n
+  induction n with
+  | zero =>
+    intro j hn hl ha hc
+    exact hend j (by omega) hl ha hc
+  | succ n ih =>
+    intro j hn hl ha hc
+    by_cases h' : j.off ≥ j.lim
+    · exact hend j h' hl ha hc
+    · rw [Iter.advanceIntoLoop, advanceIntoLoopG]
+      have h : ¬ j.off ≥ i.lim := by omega
+      simp only [h, h', dif_neg, not_false_eq_true, Iter.rdT, rd]
+      cases hr : pj.tape[j.off]? with
+      | none => simp [Res.bind]
+      | some v =>
+        simp only [Res.bind_ok]
+        by_cases hn' : tagOf v = tagNop
+        · by_cases hz : payloadOf v = 0
+          · simp [hn', hz, Res.bind, fixDead, Iter.moveToEnd, hl, ha]
+          · have hz' := payload_toNat_ne v hz
+            simp only [hn', hz, beq_self_eq_true, if_true, beq_iff_eq, if_false, dite_false, dif_neg, not_false_eq_true]
+            have := ih { j with off := j.off + (payloadOf v).toNat, cur := payloadOf v, t := tagNop }
+              (by simp only; omega) hl ha (Or.inr hz)
+            simpa using this
+        · have hb : (tagOf v == tagNop) = false := by simp [hn']
+          simp [hb, Res.bind, fixDead, hl, ha]
+
+theorem advanceIterLoop_eq_G (pj : PJ) (i : Iter) : ∀ (n : Nat) (j : Iter), j.lim - j.off ≤ n → j.lim = i.lim →
+    j.addNext = i.addNext →
+    Iter.advanceIterLoop pj i j.off = (advanceIterLoopG pj j).bind (fun r => .ok (if r.2 then some r.1 else none)) := by
+  have hend : ∀ j : Iter, j.off ≥ j.lim → j.lim = i.lim → j.addNext = i.addNext →
+      Iter.advanceIterLoop pj i j.off =
+        (advanceIterLoopG pj j).bind (fun r => .ok (if r.2 then some r.1 else none)) := by
+    intro j h' hl ha
+    rw [Iter.advanceIterLoop, advanceIterLoopG]
+    by_cases he : j.off = j.lim
+    · simp [he, ← hl, Res.bind]
+    · have h1 : ¬ j.off = i.lim := by omega
+      have h2 : j.off > i.lim := by omega
+      have h3 : j.off > j.lim := by omega
+      simp [he, h1, h2, h3, Res.bind]
+  intro n
+  induction n with
+  | zero =>
+    intro j hn hl ha
+    exact hend j (by omega) hl ha
+  | succ n ih =>
+    intro j hn hl ha
+    by_cases h' : j.off ≥ j.lim
+    · exact hend j h' hl ha
+    · rw [Iter.advanceIterLoop, advanceIterLoopG]
+      have h1 : ¬ j.off = i.lim := by omega
+      have h2 : ¬ j.off > i.lim := by omega
+      have h3 : ¬ j.off = j.lim := by omega
+      have h4 : ¬ j.off > j.lim := by omega
+      simp only [h1, h2, h3, h4, if_false, dif_neg, not_false_eq_true, Iter.rdT, rd]
+      cases hr : pj.tape[j.off]? with
+      | none => simp [Res.bind]
+      | some v =>
+        simp only [Res.bind_ok]
+        by_cases hn' : tagOf v = tagNop
+        · by_cases hz : payloadOf v = 0
+          · simp [hn', hz, Res.bind]
+          · have hz' := payload_toNat_ne v hz
+            simp only [hn', hz, beq_self_eq_true, if_true, beq_iff_eq, if_false]
+            have := ih { j with off := j.off + 1 + ((payloadOf v).toNat - 1), cur := payloadOf v, t := tagNop }
+              (by simp only; omega) hl ha
+            simpa using this
+        · have hb : (tagOf v == tagNop) = false := by simp [hn']
+          simp [hb, Res.bind, hl, ha]
+
+/-- the payload register that Go's NOP-skipping loop leaves on a dead exit is the one the model keeps: it is `0`
+    (a zero-skip NOP word) or the initial payload (no NOP word was skipped before the end of the view) -/
+def DeadCurAgrees (loop : PJ → Iter → Res (Iter × Bool)) (pj : PJ) (i : Iter) : Prop :=
+  ∀ o a, i.bump = .ok o → loop pj { i with off := o } = .ok (a, false) → a.cur = 0 ∨ a.cur = i.cur
+
+theorem fixDead_of (i a : Iter) (h : a.cur = 0 ∨ a.cur = i.cur) : fixDead i a false = a := by
+  unfold fixDead
+  rcases h with h | h
+  · simp [h]
+  · by_cases h0 : a.cur = 0
+    · simp [h0]
+    · simp only [Bool.false_eq_true, h0, or_self, if_false, ← h]
+
+theorem advance_eq_G (pj : PJ) (i : Iter) (h : DeadCurAgrees advanceLoopG pj i) : i.advance pj = advanceG pj i := by
+  unfold Iter.advance advanceG
+  cases hb : i.bump with
+  | ok o =>
+    simp only [Res.bind_ok]
+    have hL := advanceLoop_eq_G pj i _ { i with off := o } (Nat.le_refl _) rfl rfl (Or.inl rfl)
+    simp only at hL
+    rw [hL]
+    cases hg : advanceLoopG pj { i with off := o } with
+    | ok r =>
+      obtain ⟨a, l⟩ := r
+      cases l with
+      | true => simp [Res.bind, fixDead]
+      | false => simp [Res.bind, fixDead_of i a (h o a hb hg)]
+    | error e => rfl
+    | panic => rfl
+    | diverge => rfl
+  | error e => rfl
+  | panic => rfl
+  | diverge => rfl
+
+theorem advanceInto_eq_G (pj : PJ) (i : Iter) (h : DeadCurAgrees advanceIntoLoopG pj i) :
+    i.advanceInto pj = advanceIntoG pj i := by
+  unfold Iter.advanceInto advanceIntoG
+  cases hb : i.bump with
+  | ok o =>
+    simp only [Res.bind_ok]
+    have hL := advanceIntoLoop_eq_G pj i _ { i with off := o } (Nat.le_refl _) rfl rfl (Or.inl rfl)
+    simp only at hL
+    rw [hL]
+    cases hg : advanceIntoLoopG pj { i with off := o } with
+    | ok r =>
+      obtain ⟨a, l⟩ := r
+      cases l with
+      | true => simp [Res.bind, fixDead]
+      | false => simp [Res.bind, fixDead_of i a (h o a hb hg)]
+    | error e => rfl
+    | panic => rfl
+    | diverge => rfl
+  | error e => rfl
+  | panic => rfl
+  | diverge => rfl
+
+/-- `Advance`/`AdvanceInto` without a hypothesis: the model and Go agree on the returned value and on the iterator up
+    to the payload register of an iterator that is at its end -/
+def RelDead (i : Iter) (g m : Res (Iter × UInt8)) : Prop :=
+  match g, m with
+  | .ok (a, x), .ok (b, y) => x = y ∧ (b = a ∨ (a.t = tagEnd ∧ b = { a with cur := i.cur }))
+  | .panic, .panic => True
+  | .error _, .error _ => True
+  | .diverge, .diverge => True
+  | _, _ => False
+
+theorem advanceLoopG_dead (pj : PJ) : ∀ (n : Nat) (j a : Iter), j.lim - j.off ≤ n → advanceLoopG pj j = .ok (a, false) →
+    a.t = tagEnd := by
+  intro n
+  induction n with
+  | zero =>
+    intro j a hn h
+    rw [advanceLoopG] at h
+    have h' : j.off ≥ j.lim := by omega
+    simp only [h', dif_pos, Res.ok.injEq, Prod.mk.injEq, and_true] at h
+    rw [← h]
+  | succ n ih =>
+    intro j a hn h
+    rw [advanceLoopG] at h
+    by_cases h' : j.off ≥ j.lim
+    · simp only [h', dif_pos, Res.ok.injEq, Prod.mk.injEq, and_true] at h
+      rw [← h]
+    · simp only [h', dif_neg, not_false_eq_true, Iter.rdT, rd] at h
+      cases hr : pj.tape[j.off]? with
+      | none => simp [hr, Res.bind] at h
+      | some v =>
+        simp only [hr, Res.bind_ok] at h
+        by_cases hn' : tagOf v = tagNop
+        · by_cases hz : payloadOf v = 0
+          · simp [hn', hz, Iter.moveToEnd] at h
+            rw [← h]
+          · have hz' := payload_toNat_ne v hz
+            simp only [hn', hz, beq_self_eq_true, if_true, beq_iff_eq, if_false] at h
+            exact ih _ a (by simp only; omega) h
+        · have hb : (tagOf v == tagNop) = false := by simp [hn']
+          simp [hb] at h
+
+theorem advanceIntoLoopG_dead (pj : PJ) : ∀ (n : Nat) (j a : Iter), j.lim - j.off ≤ n →
+    advanceIntoLoopG pj j = .ok (a, false) → a.t = tagEnd := by
+  intro n
+  induction n with
+  | zero =>
+    intro j a hn h
+    rw [advanceIntoLoopG] at h
+    have h' : j.off ≥ j.lim := by omega
+    simp only [h', dif_pos, Res.ok.injEq, Prod.mk.injEq, and_true] at h
+    rw [← h]
+  | succ n ih =>
+    intro j a hn h
+    rw [advanceIntoLoopG] at h
+    by_cases h' : j.off ≥ j.lim
+    · simp only [h', dif_pos, Res.ok.injEq, Prod.mk.injEq, and_true] at h
+      rw [← h]
+    · simp only [h', dif_neg, not_false_eq_true, Iter.rdT, rd] at h
+      cases hr : pj.tape[j.off]? with
+      | none => simp [hr, Res.bind] at h
+      | some v =>
+        simp only [hr, Res.bind_ok] at h
+        by_cases hn' : tagOf v = tagNop
+        · by_cases hz : payloadOf v = 0
+          · simp [hn', hz, Iter.moveToEnd] at h
+            rw [← h]
+          · have hz' := payload_toNat_ne v hz
+            simp only [hn', hz, beq_self_eq_true, if_true, beq_iff_eq, if_false, dite_false, dif_neg,
+              not_false_eq_true] at h
+            exact ih _ a (by simp only; omega) h
+        · have hb : (tagOf v == tagNop) = false := by simp [hn']
+          simp [hb] at h
+
+theorem fixDead_rel (i a : Iter) : fixDead i a false = a ∨ fixDead i a false = { a with cur := i.cur } := by
+  unfold fixDead
+  by_cases h0 : a.cur = 0
+  · simp [h0]
+  · simp [h0]
+
+theorem advance_rel_G (pj : PJ) (i : Iter) : RelDead i (advanceG pj i) (i.advance pj) := by
+  unfold Iter.advance advanceG
+  cases hb : i.bump with
+  | ok o =>
+    simp only [Res.bind_ok]
+    have hL := advanceLoop_eq_G pj i _ { i with off := o } (Nat.le_refl _) rfl rfl (Or.inl rfl)
+    simp only at hL
+    rw [hL]
+    cases hg : advanceLoopG pj { i with off := o } with
+    | ok r =>
+      obtain ⟨a, l⟩ := r
+      cases l with
+      | true =>
+        simp only [Res.bind, fixDead, true_or, if_true, Res.bind_ok, Bool.not_true, Bool.false_eq_true, if_false]
+        split <;> simp [RelDead]
+      | false =>
+        have ht := advanceLoopG_dead pj _ _ a (Nat.le_refl _) hg
+        simp only [Res.bind, Res.bind_ok, Bool.not_false, if_true, RelDead, true_and]
+        rcases fixDead_rel i a with h | h
+        · exact Or.inl h
+        · exact Or.inr ⟨ht, h⟩
+    | error e => simp [Res.bind, RelDead]
+    | panic => simp [Res.bind, RelDead]
+    | diverge => simp [Res.bind, RelDead]
+  | error e => simp [RelDead]
+  | panic => simp [RelDead]
+  | diverge => simp [RelDead]
+
+theorem advanceInto_rel_G (pj : PJ) (i : Iter) : RelDead i (advanceIntoG pj i) (i.advanceInto pj) := by
+  unfold Iter.advanceInto advanceIntoG
+  cases hb : i.bump with
+  | ok o =>
+    simp only [Res.bind_ok]
+    have hL := advanceIntoLoop_eq_G pj i _ { i with off := o } (Nat.le_refl _) rfl rfl (Or.inl rfl)
+    simp only at hL
+    rw [hL]
+    cases hg : advanceIntoLoopG pj { i with off := o } with
+    | ok r =>
+      obtain ⟨a, l⟩ := r
+      cases l with
+      | true =>
+        simp only [Res.bind, fixDead, true_or, if_true, Res.bind_ok, Bool.not_true, Bool.false_eq_true, if_false]
+        split <;> simp [RelDead]
+      | false =>
+        have ht := advanceIntoLoopG_dead pj _ _ a (Nat.le_refl _) hg
+        simp only [Res.bind, Res.bind_ok, Bool.not_false, if_true, RelDead, true_and]
+        rcases fixDead_rel i a with h | h
+        · exact Or.inl h
+        · exact Or.inr ⟨ht, h⟩
+    | error e => simp [Res.bind, RelDead]
+    | panic => simp [Res.bind, RelDead]
+    | diverge => simp [Res.bind, RelDead]
+  | error e => simp [RelDead]
+  | panic => simp [RelDead]
+  | diverge => simp [RelDead]
+
+/-- `AdvanceIter` reports the end of the view (`TypeNone, nil`) only where the cursor already stood: no NOP word was
+    skipped on the way.  (Otherwise Go leaves `i.off = len(tape)` and the last NOP payload in `i.cur`, while the
+    model's `{ i with off := o, addNext := 0, t := tagEnd }` keeps the offset before the NOP words.) -/
+def EndAtStart (pj : PJ) (i : Iter) : Prop :=
+  ∀ o, i.bump = .ok o → Iter.advanceIterLoop pj i o = .ok none → o = i.lim
+
+theorem advanceIter_eq_G (pj : PJ) (i dst : Iter) (h : EndAtStart pj i) :
+    i.advanceIter pj dst = advanceIterG pj i dst := by
+  unfold Iter.advanceIter advanceIterG
+  cases hb : i.bump with
+  | ok o =>
+    simp only [Res.bind_ok]
+    have hL := advanceIterLoop_eq_G pj i _ { i with off := o } (Nat.le_refl _) rfl rfl
+    simp only at hL
+    have h' := h o hb
+    rw [hL] at h' ⊢
+    cases hg : advanceIterLoopG pj { i with off := o } with
+    | ok r =>
+      obtain ⟨a, l⟩ := r
+      cases l with
+      | true => simp [Res.bind]
+      | false =>
+        have ho : o = i.lim := h' (by simp [hg, Res.bind])
+        rw [advanceIterLoopG] at hg
+        simp only [ho, if_true, Res.ok.injEq, Prod.mk.injEq, and_true] at hg
+        simp [Res.bind, ← hg, ho]
+    | error e => rfl
+    | panic => rfl
+    | diverge => rfl
+  | error e => rfl
+  | panic => rfl
+  | diverge => rfl
+
+/-! ## calls -/
+section calls
+attribute [local simp] exec exec1 execCases evalE evalEs isOneOf binop convert ofE copyFields bindParams
+  iterFields runFun tblLookup Env.get_set
+
+theorem call_calcNext_i (s : St) (j : Iter) (b : Bool) (f : Nat) (hI : iterAt s.env "i" = some j)
+    (hcur : j.cur.toNat < 2^63) :
+    exec1 goFuns (f + 1) (.call "i" "Iter.calcNext" [.bool b]) s =
+      .normal ⟨setIter s.env "i" (j.calcNext b), s.tape⟩ := by
+  obtain ⟨h1, h2, h3, h4, h5⟩ := iterAt_get _ _ _ hI
+  simp only [String.reduceAppend] at h1 h2 h3 h4 h5
+  have hc := calcNext_exec j b s.tape f hcur
+  simp only [envOf, String.reduceAppend, List.cons_append, List.nil_append, goIter_calcNext] at hc
+  rw [exec1]
+  simp [goFuns, h1, h2, h3, h4, h5, Env.set, goIter_calcNext, -exec, -exec1]
+  rw [hc]
+  simp [Env.get, setIter]
+
+theorem call_calcNext_dst (s : St) (j : Iter) (b : Bool) (f : Nat) (hI : iterAt s.env "dst" = some j)
+    (hcur : j.cur.toNat < 2^63) :
+    exec1 goFuns (f + 1) (.call "dst" "Iter.calcNext" [.bool b]) s =
+      .normal ⟨setIter s.env "dst" (j.calcNext b), s.tape⟩ := by
+  obtain ⟨h1, h2, h3, h4, h5⟩ := iterAt_get _ _ _ hI
+  simp only [String.reduceAppend] at h1 h2 h3 h4 h5
+  have hc := calcNext_exec j b s.tape f hcur
+  simp only [envOf, String.reduceAppend, List.cons_append, List.nil_append, goIter_calcNext] at hc
+  rw [exec1]
+  simp [goFuns, h1, h2, h3, h4, h5, Env.set, goIter_calcNext, -exec, -exec1]
+  rw [hc]
+  simp [Env.get, setIter]
+
+theorem call_moveToEnd_i (s : St) (j : Iter) (f : Nat) (hI : iterAt s.env "i" = some j) :
+    exec1 goFuns (f + 1) (.call "i" "Iter.moveToEnd" []) s = .normal ⟨setIter s.env "i" j.moveToEnd, s.tape⟩ := by
+  obtain ⟨h1, h2, h3, h4, h5⟩ := iterAt_get _ _ _ hI
+  simp only [String.reduceAppend] at h1 h2 h3 h4 h5
+  have hc := moveToEnd_exec j s.tape f
+  simp only [envOf, String.reduceAppend, goIter_moveToEnd] at hc
+  rw [exec1]
+  simp [goFuns, h1, h2, h3, h4, h5, Env.set, goIter_moveToEnd, -exec, -exec1]
+  rw [hc]
+  simp [Env.get, setIter]
+
+end calls
 end SJ.GoIter
